@@ -95,6 +95,9 @@ def run(ctx):
                         ctx.violation("%s:%s" % (k, config), w, detail)
                     d = refexec.compare_data(out[1], ref[1])
                     if d:
+                        import os
+                        if os.environ.get("VF_DEBUG"):
+                            print("DEBUG errors lib=%r model=%r" % ([str(e) for e in out[3].errors][:6], ref[2][:6]), flush=True)
                         kind = "response-order" if str(d[1]).startswith("keys") else "data-differs"
                         ctx.violation("%s:%s" % (kind, config), w, "at %r outcome=%r model=%r" % (list(d[0]), d[1], d[2]))
                     elif refexec.drop_under_aborted(sorted([p for p, _k in ref[2]], key=repr), ref[3]) != \
